@@ -31,6 +31,7 @@ var c17Lengths = []int{1, 100, 4096, 65534, 65535, 65536, 65537, 70000, 262144, 
 
 var c17Carriers = []string{
 	"ra-entry|generate", "ra-entry|generate-stdin", "ra-entry|format", "ra-entry|update",
+	"ra-expanded-entry|generate", "ra-expanded-entry|generate-stdin", "ra-expanded-entry|update",
 	"ra-block-entry|generate", "ra-comment|generate", "ra-comment|generate-stdin", "ra-comment|update", "ra-comment|format",
 	"include-entry|generate", "include-entry-pairs|generate", "include-except-F|generate", "include-except-X|generate",
 	"yaml-payload|renumber", "conf-line|copyright", "rules-line|update",
@@ -132,6 +133,16 @@ func c17Build(p *C17Params) *c17Built {
 		}
 		b.Lines = lp
 		b.LongLine = longPlain
+	case "ra-expanded-entry":
+		// every source line is short enough; the entry grows to L bytes only when the definition is substituted (three times)
+		third := p.L / 3
+		if third < 1 {
+			third = 1
+		}
+		pl, mc := longToken(third)
+		lm := append([]string{"##!> define big " + mc}, words("{{big}}{{big}}{{big}}")...)
+		put(ra, lm)
+		b.Words = append(append([]string{}, short...), pl+pl+pl)
 	case "include-entry", "include-entry-pairs":
 		put("crs/regex-assembly/include/big.ra", words(macro))
 		inc := "##!> include big"
